@@ -112,7 +112,70 @@ def c09_oracle(pid, res, driver):
     return findings
 
 
+def c09_targeted_cases(hb):
+    """Blocks whose first Rice partition is silent and whose rest is uniform noise at 32 amplitudes around the point where a
+    predicted subframe costs about as much as a verbatim one (a size estimate that is a little too small then lets an
+    oversized subframe through), LPC order 24 / 12 with the fixed predictors off, Rice parameters capped at 12 / 14."""
+    out = fv.sh([hb, "dump"], timeout=600).stdout
+    cfgd = re.search(r"^cfgdefault (\S+)", out, re.M).group(1)
+    def cfg(bs, **kw):
+        c = re.sub(r"bs=\d+", "bs=%d" % bs, cfgd)
+        for k, v in dict(mt=0, **kw).items():
+            c = re.sub(r"(^|;)%s=[^;]*" % k, lambda m: "%s%s=%s" % (m.group(1), k, v), c)
+        return c
+    cases = []
+    j = 0
+    for bs in (4104, 2056, 4096, 1032):
+        for (lo, mp, uf) in ((24, 12, 0), (12, 14, 0), (24, 14, 1)):
+            for a in range(14000, 32768, 900):
+                x = 12345 + a * 7 + bs
+                vals = []
+                for t in range(bs):
+                    x = (x * 1103515245 + 12345) & 0x7FFFFFFF
+                    vals.append(0 if t < bs // 8 else ((x >> 8) % (2 * a + 1)) - a)
+                cases.append("CNT pq%d E %s 44100 1 16 %d %s" % (j, cfg(bs, lo=lo, mp=mp, uf=uf, ul=1), bs, ",".join(map(str, vals))))
+                j += 1
+    return cases
+
+
+def frames_over_verbatim(c, o):
+    """(frame index, length, verbatim length) of the first frame of a CNT E case that is more than 2 bytes per channel larger than
+    its verbatim encoding, or None."""
+    t = c.split(" ", 3)
+    m = re.search(r"lens=(\S+)", o)
+    if len(t) < 4 or t[2] != "E" or not m:
+        return None
+    pc = parse_enc_case("ENC x " + t[3])
+    n = len(pc["samples"]) // pc["ch"]
+    lens = [] if m.group(1) == "-" else [int(x) for x in m.group(1).split(",")]
+    for i, L in enumerate(lens):
+        blk = pc["bs"] if (i + 1) * pc["bs"] <= n else n - i * pc["bs"]
+        verb = header_bytes(blk, pc["rate"], i) + (pc["ch"] * (8 + pc["bps"] * blk) + 7) // 8 + 2
+        if L > verb + 2 * pc["ch"]:
+            return (i, L, verb)
+    return None
+
+
+def c09_post_search(pid, res):
+    """Run when the correspondence broke and no explored case violates the property: only the implementation is consulted."""
+    hb = fv.build_harness("release")
+    cases = c09_targeted_cases(hb)
+    outs = fv.run_lines([hb, "run"], cases, timeout=1500)
+    findings = []
+    for c, o in zip(cases, outs):
+        if o.endswith("panic"):
+            findings.append({"case": c, "impl": o[:300], "profile": "release", "why": "encoding a valid block panicked"})
+            continue
+        r = frames_over_verbatim(c, o)
+        if r:
+            findings.append({"case": c, "impl": o[:300], "profile": "release",
+                             "why": "frame %d has %d bytes > verbatim %d + 2 per channel" % r})
+    res.extra["post_search_cases"] = len(cases)
+    return findings
+
+
 PROPS["C09"] = {
+    "post_search": c09_post_search,
     "coq": "theories/Props/C09.v",
     "theorems": ["C09_subframe_le_verbatim", "C09_frame_body_le_verbatim", "C09_frame_bits_bound", "C09_frame_bytes_le_verbatim"],
     "streams": "ENC+CNT0",
@@ -348,7 +411,7 @@ PROPS["C02"] = {
     "theorems": ["C02_block_size_codes", "C02_sample_rate_codes", "C02_number_roundtrip", "C02_number_defined", "C02_emitted_stream_strict"],
     "streams": "ENC+CNT", "rule": "ENC+CNT",
     "oracle": lambda pid, res, driver: enc_oracle(pid, res, driver) + header_oracle(pid, res, driver),
-    "search": lambda pid, res, hb: table_search(pid, res, hb),
+    "search": lambda pid, res, hb: c02_search(pid, res, hb),
     "assumptions": ["whole-stream strictness (sync, reserved bits, CRCs, padding, subframe limits, frame numbering, consistency with "
                     "STREAMINFO) is decided per run by the extracted strict validator on the implementation's bytes",
                     "code tables come from the compiled crate (GenTables.v), so the sweeps range over the implementation's outputs"],
@@ -710,6 +773,10 @@ def par_blocks(c):
 
 def par_model_input(c, o):
     t = c.split(" ")
+    if t[11] != "-" and len(t[11].split(",")) % int(t[8]) != 0:
+        # the source ends in the middle of an inter-channel sample: outside the LTS; only the implementation-level
+        # comparison (multi- vs single-threaded result, hang, leaked threads) applies
+        return "CNT %s E skip" % t[1]
     tr = o.split(" | ", 1)[1] if " | " in o else "F: | H: | M: | W:"
     return "PARTRACE %s %s %d %s %s | %s" % (t[1], t[2], par_blocks(c), t[4], t[5], tr)
 
@@ -795,7 +862,7 @@ PAR_STREAM = {"name": "PAR", "quick": 320, "thorough": 6000, "profiles": ["debug
               "nontrivial": lambda c, o: o.count(",P") >= 3}
 PAR_RULE = ("PAR: multi-threaded encoding of 0..9 blocks (+ optional short tail) with 1..4 workers (1 case in 32: 17, 33, 40 or 64 workers) under seeded schedule perturbation "
             "(yield / sleep 50-450us / spin at every hook point of par.rs, derived from the case seed), optionally a read error at read "
-            "index 0..blocks+1 and/or out-of-range samples in 1-2 blocks. Observables: result (bytes or error kind) vs the single-threaded "
+            "index 0..blocks+1 and/or out-of-range samples in 1-2 blocks; 1 case in 24 with 2 channels ends in the middle of an inter-channel sample (LTS not consulted for those). Observables: result (bytes or error kind) vs the single-threaded "
             "run on the same source, threads alive after return (/proc/self/task), timeout 20 s, and the event log turned into per-thread "
             "label sequences that the extracted LTS (Model/Par.v) must accept as a run ending in the same outcome. Non-trivial = at least "
             "three frames pushed by workers.")
@@ -979,7 +1046,7 @@ HIST_STREAM = {"name": "HIST", "quick": 320, "thorough": 8000, "profiles": ["deb
                "nontrivial": lambda c, o: c.count(" ;; ") >= 2 and "err" not in o, "memlimit_kb": 8000000}
 SCR_STREAM = {"name": "SCR", "quick": 1500, "thorough": 40000, "profiles": ["debug", "release"],
               "nontrivial": lambda c, o: c.split(" ")[2] in ("RICE", "PLANES", "CACHE", "QERR")}
-HIST_RULE = ("HIST: histories of 2..6 calls on one long-lived thread, each call one of: stream-level encode + write (single thread), the "
+HIST_RULE = ("HIST: histories of 2..6 calls (1 in 40: a LONG history of 34..44 frame-level calls whose Tukey-window key (block size, alpha) differs in every call: shrinking, growing, shuffled block sizes or alpha moving by 2^-20) on one long-lived thread, each call one of: stream-level encode + write (single thread), the "
              "same multi-threaded with 2 workers, encode + parse + re-serialise, frame-level encode + write, a write into a failing sink, and - before a third of the calls - POISONING of every thread-local scratch storage with arbitrary contents of arbitrary sizes (hook poison_scratch: fixed-LPC planes, QLPC error buffer, mid/side buffer, Rice finder scratch, estimator float buffers, CRC scratch sinks); half of the histories are "
              "unrelated calls (ENC generator: 1-8 channels, widths 8..24, block sizes shrinking and growing over 32..1152, random verified "
              "configurations), half are the same call repeated with Tukey parameters closer than 2^-16 to each other (0, 2^-16, 0.1, 0.25, "
@@ -1050,6 +1117,37 @@ def table_search(pid, res, harness_bin):
         cases.append("ENC tr%d %s %d 1 16 64 %s" % (j, re.sub(r"bs=\d+", "bs=64", cfgd), f, ramp(70)))
     res.extra["table_mismatches"] = {"block_sizes": bad_blocks[:20], "sample_rates": bad_rates[:20]}
     return {"ENC": cases}
+
+
+def c02_search(pid, res, harness_bin):
+    """table_search plus blocks aimed at the Rice partition rules: LPC orders 16..24 in blocks of order * 2^k samples whose
+    level changes every `order` samples (the finest partitioning is then the cheapest)."""
+    extra = table_search(pid, res, harness_bin)
+    out = fv.sh([harness_bin, "dump"], timeout=600).stdout
+    cfgd = re.search(r"^cfgdefault (\S+)", out, re.M).group(1)
+    def cfg(bs, **kw):
+        c = re.sub(r"bs=\d+", "bs=%d" % bs, cfgd)
+        for k, v in dict(mt=0, **kw).items():
+            c = re.sub(r"(^|;)%s=[^;]*" % k, lambda m: "%s%s=%s" % (m.group(1), k, v), c)
+        return c
+    cases = []
+    j = 0
+    for lo in (16, 17, 20, 24, 8, 12):
+        for k in (4, 6, 7, 8):
+            bs = lo * (1 << k)
+            if not (32 <= bs <= 32767):
+                continue
+            for uf in (0, 1):
+                x = 777 + lo * 31 + k
+                vals = []
+                for t in range(bs):
+                    x = (x * 1103515245 + 12345) & 0x7FFFFFFF
+                    amp = 6000 if (t // lo) % 2 == 0 else 2
+                    vals.append(((x >> 8) % (2 * amp + 1)) - amp + int(3000 * ((t % 50) / 25.0 - 1)))
+                cases.append("ENC tp%d %s 44100 1 16 %d %s" % (j, cfg(bs, lo=lo, uf=uf, ul=1, qp=15), bs, ",".join(map(str, vals))))
+                j += 1
+    extra["ENC"] = extra.get("ENC", []) + cases
+    return extra
 
 
 def feat_oracle(pid, res, driver):
@@ -1482,7 +1580,21 @@ def enc_oracle(pid, res, driver, stream="ENC"):
                 ok = int(f["maxb"]) == pc["bs"] and int(f["minb"]) >= 16 and int(f["minb"]) <= pc["bs"] and int(f["minf"]) == min(lens) and int(f["maxf"]) == max(lens)
                 if not ok:
                     findings.append(dict(short, why="STREAMINFO bounds %s vs block size %d and frame lengths min=%d max=%d" % (f, pc["bs"], min(lens), max(lens))))
-        elif pid == "C09":
+        if pid == "C02" and len(t) > 2:
+            # RFC 9639 9.2.7: the partition count divides the block and (block size >> partition order) is LARGER than the
+            # predictor order (every partition holds at least one residual); read off the emitted subframes
+            bad = None
+            for i, fr in enumerate(t[2].split("/") if t[2] != "-" else []):
+                blk = pc["bs"] if (i + 1) * pc["bs"] <= n else n - i * pc["bs"]
+                for sub in fr.split(":", 1)[-1].split(","):
+                    mm = re.match(r"[FL](\d+)p(\d+)$", sub)
+                    if mm:
+                        o_, po = int(mm.group(1)), int(mm.group(2))
+                        if blk % (1 << po) != 0 or (blk >> po) <= o_:
+                            bad = (i, sub, blk)
+            if bad:
+                findings.append(dict(short, why="frame %d: subframe %s in a block of %d samples: (block >> partition order) is not larger than the predictor order (RFC 9639 9.2.7)" % bad))
+        if pid == "C09":
             for i, L in enumerate(lens):
                 blk = pc["bs"] if (i + 1) * pc["bs"] <= n else n - i * pc["bs"]
                 verb = header_bytes(blk, pc["rate"], i) + (pc["ch"] * (8 + pc["bps"] * blk) + 7) // 8 + 2
